@@ -56,7 +56,7 @@ def genvalRequest (st : DState) (f : List String) : String :=
      | some k, some seed, some lead =>
        (match st[k]? with
         | some (some l) =>
-          let (x, _) := genNamed l.ast 400 0 ty ⟨seed * 2654435761 + 12345⟩
+          let (x, _) := genNamed l.ast 400 0 ty { s := seed * 2654435761 + 12345 }
           if hasTypeNamed l.ast ty x then
             let e := x.enc
             hexOfBytes e ++ "\t" ++ (reprNamed l.ast ty lead x).show ++ " ws=" ++ toString e.length ++
@@ -79,6 +79,21 @@ def outputOkRequest (f : List String) : String :=
            | _ => "nogen")
         | _ => "nogen")
      | none => "bad-op")
+  | _ => "bad-op"
+
+/-- `genover K ty seed k`: as `genval`, but the k-th bounded position met carries max+1 items with all their bytes
+    present; replies the encoding (the decoder must answer `InvalidLength`) or `skip` when there is no such position -/
+def genoverRequest (st : DState) (f : List String) : String :=
+  match f with
+  | [k, ty, seed, vk] =>
+    (match k.toNat?, seed.toNat?, vk.toNat? with
+     | some k, some seed, some vk =>
+       (match st[k]? with
+        | some (some l) =>
+          let (x, r) := genNamed l.ast 400 0 ty { s := seed * 2654435761 + 12345, victim := vk }
+          if r.hit then hexOfBytes x.enc else "skip"
+        | _ => "no-spec")
+     | _, _, _ => "bad-op")
   | _ => "bad-op"
 
 end Fx
